@@ -13,6 +13,9 @@ from . import core
 
 def body(prop: str, args) -> int:
     chk = core.Check(prop, args.tier, args.seed)
+    from . import linecov
+
+    linecov.start(str(core.REPO / "src"))
     if not core.SWEEP:
         core.build_lean()
         chk.audit_info = core.audit(prop)
